@@ -10,8 +10,46 @@ statements are about `Parser.parse env (fieldText F s)` where `fieldText F s` is
     F::s
     ===END===
 
-Hypotheses common to all theorems: `KeyOK F` (identifier-shaped field name, no reserved-word prefix, not `META`) and
-`NfcStable env F s` (the environment's NFC leaves the four ASCII lines alone — true of CPython).
+and the result is `fieldDoc F v`: the document named `D` with exactly one section, the assignment `F` with value `v`
+(at line 2, column 1), nothing else (no META, no separator, no comments).
+
+Hypotheses common to all theorems: `KeyOK F` (identifier-shaped field name `[A-Za-z_][A-Za-z0-9_.-]*` not ending in `-`, no
+reserved-word prefix, not `META`) and `NfcStable env F s` (the environment's NFC leaves the four ASCII lines alone — true of
+CPython; `Env.nfc` is an arbitrary function in the model).  On the real code: `META::1` → ParserError E001 at 2:5 (the
+line is taken for the META block header), `true::1` → a document with NO section, `1F::1` → the assignment `F` = 1.
+
+  * `C13_boolean_read`, `C13_null_read`   `F::true` / `F::false` / `F::null` are read as the boolean / null.
+  * `C13_bareword_read`                   `F::w` is read as the STRING `w` for every `BareWord w`.
+  * `C13_number_read`                     for EVERY `s` with `pyNumberFull s` (the predicate of `gbnf/Octave/Spec/PyNumber.lean`,
+      copied verbatim into `Lemmas/C13Reader.lean`: every full match of `-?\d+\.?\d*(?:[eE][+-]?\d+)?` with ASCII digits)
+      that is `Representable`, `F::s` is read as the NUMBER value `numberValue env s`:
+        - no `.`, `e`, `E` in `s` (`isIntLexeme`): the INT `intOfText s` = sign · decimal value of the digits, leading zeros
+          ignored (`-0` → int 0, `007` → int 7); representable = at most 4300 digits, leading zeros counted (CPython's limit);
+        - otherwise the FLOAT `repr(float(s))` (`env.floatRepr s`; `1.`, `1.0`, `1e5`, `1E+5`, `1.e5` are all floats;
+          `Env.ascii.floatRepr` is the identity, CPython gives `1.0`, `1.0`, `100000.0`, …); representable = `float(s)` is not
+          `inf` / `-inf`, which is exactly the test of the lexer's overflow refusal (fix 70ba9a7).
+      `C13_number_typed`: that value is an int or a float — never a string, boolean or null.
+      `C13_number_read_gbnf`: the same for the compiled NUMBER fragment's own language `gbnfNumber` (`-`? digit+ (`.` digit+)?),
+      via `gbnfNumber_pyNumberFull`; there the value is an int exactly when the text has no `.` (`C13_number_gbnf_value`).
+      The theorem is at FULL strength for `pyNumberFull` (not `_partial`): the only guard is
+      representability.
+  * `C13_number_refused`                  the two excluded regions, for ALL inputs: a `pyNumberFull` text that is NOT
+      representable makes the reader raise LexerError E005 at line 2, column `1 + |F| + 2` (the first character of the value).
+      These are the open findings C13N3 (more than 4300 digits: derivable from TYPE[NUMBER], refused) and C13N4 (float
+      overflow: `1` followed by 309 zeros `.0` is derivable, refused).  Witnesses: `C13N3_witness` (4301 digits, run through
+      the theorem and `decide +kernel` on the hypotheses), `C13N4_witness` (any environment whose `float()` overflows there).
+
+What `BareWord` EXCLUDES (the neighbourhood of open finding C13N2 — CONST / ENUM literals are raw text, not OCTAVE value
+syntax), with what the real code (`octave_mcp.parse`) returns for `F::<text>` there:
+    `hello world` → str 'hello world' (accepted, by multi-word coalescing: outside the predicate, not proved);
+    `a/b` → str 'a/b' (accepted; `/` is an identifier char of the lexer but not of the emitter's IDENTIFIER_PATTERN);
+    `9lives` → str '9 lives' (MISREAD);   `a,b` → str 'a' (MISREAD);   `#tag` → str '§tag' (MISREAD);
+    `a&b` → 'a∧b', `x->y` → 'x→y', `A+B` → 'A⊕B' (MISREAD: operator aliases);   `vs` → str '⇌' (MISREAD);
+    `null.x` → str 'null .x' (MISREAD);   `"true"` → str 'true' (quotes removed);
+    `true-x` → LexerError E005 at 2:8;   `a-` → LexerError E005 at 2:5;   the empty text → null-ish / no value.
+  NOT excluded (covered by `C13_bareword_read`): `True`, `NULL`, `False` (wrong-case words are plain identifiers: read as
+  the strings 'True', 'NULL', 'False', with a lexer receipt), `truely`, `nullable`, `vsx`, `a.`, `a..b`, `v1.2-rc`.
+  The necessity examples at the end run the model at these points.
 -/
 import Octave.Lemmas.C13Reader
 import Octave.Props.C01roundtrip
@@ -57,14 +95,101 @@ theorem C13_bareword_read (env : Env) (F w : Str) (hF : KeyOK F) (hw : BareWord 
     Parser.parse env (fieldText F w) = .ok (fieldDoc F (.str w)) :=
   C13_scalar_read env F (.bare w) hF hw hnfc
 
-/-! ### non-vacuity (stage 1) -/
+theorem stripFrontmatter_field (env : Env) (F s : Str) :
+    Parser.stripFrontmatter env (fieldText F s) = (fieldText F s, none) := by
+  unfold Parser.stripFrontmatter
+  have : startsWith "---".toList (fieldText F s) = false := by
+    rw [fieldText_eq]; simp [startsWith, List.isPrefixOf]
+  rw [this]; rfl
+
+/-- **any value text that one lexer step reads as one scalar token** `sc` (`ValueStep`): `F::s` is read without error as
+the document with the single assignment `F` whose value is `sc`'s value. -/
+theorem C13_value_read (env : Env) (F s : Str) (sc : FlatParse.Scalar) (hF : KeyOK F) (hclean : Clean s)
+    (hstep : ValueStep env false s sc) (hnfc : NfcStable env F s) :
+    Parser.parse env (fieldText F s) = .ok (fieldDoc F sc.val) := by
+  have hlex := tokenize_field env false F s sc hF hclean hstep hnfc
+  have hs := stripFrontmatter_field env F s
+  have hlex' : Lexer.tokenize env (Parser.stripFrontmatter env (fieldText F s)).1
+      = .ok (FlatParse.flatToks (flatFrame "D".toList 1) "D".toList [fieldLine F sc s.length], identifierRepairs F 2 1) := by
+    rw [hs]; exact hlex
+  have hm : FlatParse.metaFirst [fieldLine F sc s.length] = false := by
+    simp only [FlatParse.metaFirst, fieldLine, beq_eq_false_iff_ne, ne_eq]
+    exact hF.2.2
+  rw [C02.C02_flat_text_read env (fieldText F s) _ "D".toList _ _ hlex' hm, hs]
+  rfl
+
+/-- a lexer refusal is the reader's refusal. -/
+theorem parse_of_tokenize_error (env : Env) (F s : Str) (e : Exc) (h : Lexer.tokenize env (fieldText F s) = .error e) :
+    Parser.parse env (fieldText F s) = .error e := by
+  unfold Parser.parse
+  rw [stripFrontmatter_field]
+  simp only [h, bind, Except.bind]
+
+/-- the value the reader gives a NUMBER lexeme -/
+def numberValue (env : Env) (s : Str) : Value :=
+  if isIntLexeme s then .int (intOfText s) else .float (env.floatRepr s)
+
+theorem numScalar_val (env : Env) (s : Str) : (numScalar env s).val = numberValue env s := by
+  unfold numScalar numberValue
+  split <;> rfl
+
+instance (env : Env) (s : Str) : Decidable (Representable env s) := by unfold Representable; infer_instance
+
+/-- **NUMBER**: every full match of the reader's NUMBER pattern (`pyNumberFull`, the predicate the `gbnf` engine proves of
+every text derivable from TYPE[NUMBER]) that is representable is read as the NUMBER value `numberValue env s`. -/
+theorem C13_number_read (env : Env) (F s : Str) (hs : pyNumberFull s = true) (hF : KeyOK F) (hrep : Representable env s)
+    (hnfc : NfcStable env F s) :
+    Parser.parse env (fieldText F s) = .ok (fieldDoc F (numberValue env s)) := by
+  obtain ⟨p, hp, rfl⟩ := pyNumberFull_shape s hs
+  rw [← numScalar_val]
+  exact C13_value_read env F p.text _ hF (p.clean hp) (numParts_valueStep env false p hp hrep) hnfc
+
+/-- the value of a NUMBER lexeme is an int or a float: never a string, a boolean or null. -/
+theorem C13_number_typed (env : Env) (s : Str) :
+    (∃ i, numberValue env s = .int i) ∨ (∃ r, numberValue env s = .float r) := by
+  unfold numberValue
+  split
+  · exact Or.inl ⟨_, rfl⟩
+  · exact Or.inr ⟨_, rfl⟩
+
+/-- **the excluded regions (findings C13N3, C13N4), all inputs**: a full match of the NUMBER pattern that is NOT representable
+(int literal of more than 4300 digits; float literal that overflows) is REFUSED: LexerError E005 at the value. -/
+theorem C13_number_refused (env : Env) (F s : Str) (hs : pyNumberFull s = true) (hF : KeyOK F) (hrep : ¬ Representable env s)
+    (hnfc : NfcStable env F s) :
+    Parser.parse env (fieldText F s) = .error (.lexer "E005".toList 2 (1 + F.length + 2)) := by
+  obtain ⟨p, hp, rfl⟩ := pyNumberFull_shape s hs
+  apply parse_of_tokenize_error
+  exact tokenize_field_refused env false F p.text hF (p.clean hp) (p.ne_nil hp)
+    (fun st rest hr => step_numParts_refused env false st p hp ('\n' :: rest) hr (floatTerm_nl env rest) hrep) hnfc
+
+
+/-- the compiled NUMBER fragment's own language `-`? digit+ (`.` digit+)?. -/
+theorem C13_number_read_gbnf (env : Env) (F s : Str) (hs : gbnfNumber s = true) (hF : KeyOK F) (hrep : Representable env s)
+    (hnfc : NfcStable env F s) :
+    Parser.parse env (fieldText F s) = .ok (fieldDoc F (numberValue env s)) :=
+  C13_number_read env F s (gbnfNumber_pyNumberFull s hs) hF hrep hnfc
+
+/-- in the compiled fragment's language (no exponent) the value is an INT exactly when the text has no `.`. -/
+theorem C13_number_gbnf_value (env : Env) (s : Str) (hs : gbnfNumber s = true) :
+    numberValue env s = if s.contains '.' then .float (env.floatRepr s) else .int (intOfText s) := by
+  unfold numberValue
+  rw [gbnfNumber_isInt s hs]
+  cases s.contains '.' <;> rfl
+
+/-! ### non-vacuity -/
 
 theorem nfcStable_ascii (F s : Str) : NfcStable Env.ascii F s := fun _ _ => rfl
 
 example : KeyOK "F".toList ∧ KeyOK "STATUS".toList ∧ KeyOK "a.b-c_1".toList ∧ ¬ KeyOK "META".toList ∧ ¬ KeyOK "1F".toList ∧
     ¬ KeyOK "true".toList ∧ ¬ KeyOK "A B".toList := by decide
 example : BareWord "ACTIVE".toList ∧ BareWord "in_progress".toList ∧ BareWord "v1.2-rc".toList ∧ BareWord "truely".toList ∧
-    BareWord "nullable".toList := by decide
+    BareWord "nullable".toList ∧ BareWord "True".toList ∧ BareWord "NULL".toList ∧ BareWord "a.".toList ∧ BareWord "vsx".toList := by
+  decide
+/-- the excluded member texts. -/
+example : ¬ BareWord "hello world".toList ∧ ¬ BareWord "a/b".toList ∧ ¬ BareWord "9lives".toList ∧ ¬ BareWord "a,b".toList ∧
+    ¬ BareWord "#tag".toList ∧ ¬ BareWord "a&b".toList ∧ ¬ BareWord "x->y".toList ∧ ¬ BareWord "vs".toList ∧
+    ¬ BareWord "null.x".toList ∧ ¬ BareWord "\"true\"".toList ∧ ¬ BareWord "true-x".toList ∧ ¬ BareWord "a-".toList ∧
+    ¬ BareWord [] ∧ ¬ BareWord "true".toList ∧ ¬ BareWord "null".toList := by decide
 
 example : Parser.parse Env.ascii (fieldText "F".toList "ACTIVE".toList) = .ok (fieldDoc "F".toList (.str "ACTIVE".toList)) :=
   C13_bareword_read Env.ascii _ _ (by decide) (by decide) (nfcStable_ascii _ _)
@@ -72,5 +197,116 @@ example : Parser.parse Env.ascii (fieldText "F".toList "true".toList) = .ok (fie
   (C13_boolean_read Env.ascii _ (by decide)).1 (nfcStable_ascii _ _)
 example : Parser.parse Env.ascii (fieldText "F".toList "null".toList) = .ok (fieldDoc "F".toList .null) :=
   C13_null_read Env.ascii _ (by decide) (nfcStable_ascii _ _)
+
+/-- the hypotheses of `C13_number_read` at the named points; what `numberValue` is there. -/
+example : pyNumberFull "-12.50".toList = true ∧ pyNumberFull "0".toList = true ∧ pyNumberFull "007".toList = true ∧
+    pyNumberFull "1.".toList = true ∧ pyNumberFull "-0".toList = true ∧ pyNumberFull "1.0".toList = true ∧
+    pyNumberFull "1e5".toList = true ∧ pyNumberFull "1E+5".toList = true ∧ pyNumberFull "1.e-5".toList = true := by decide
+example : gbnfNumber "-12.50".toList = true ∧ gbnfNumber "0".toList = true ∧ gbnfNumber "007".toList = true ∧
+    gbnfNumber "-0".toList = true ∧ gbnfNumber "1.".toList = false ∧ gbnfNumber "1e5".toList = false ∧
+    gbnfNumber "-".toList = false ∧ gbnfNumber ".5".toList = false ∧ gbnfNumber "1.5x".toList = false := by decide
+example : Representable Env.ascii "-12.50".toList ∧ Representable Env.ascii "0".toList ∧ Representable Env.ascii "007".toList ∧
+    Representable Env.ascii "1.".toList := by decide
+example : FlatParse.valEqB (numberValue Env.ascii "0".toList) (.int 0) = true := by decide
+example : FlatParse.valEqB (numberValue Env.ascii "-0".toList) (.int 0) = true := by decide
+example : FlatParse.valEqB (numberValue Env.ascii "007".toList) (.int 7) = true := by decide
+example : FlatParse.valEqB (numberValue Env.ascii "-42".toList) (.int (-42)) = true := by decide
+example : FlatParse.valEqB (numberValue Env.ascii "1.".toList) (.float "1.".toList) = true := by decide
+example : FlatParse.valEqB (numberValue Env.ascii "1.0".toList) (.float "1.0".toList) = true := by decide
+example : FlatParse.valEqB (numberValue Env.ascii "1e5".toList) (.float "1e5".toList) = true := by decide
+example : FlatParse.valEqB (numberValue Env.ascii "-12.50".toList) (.float "-12.50".toList) = true := by decide
+
+/-- `C13_number_read` instantiated. -/
+example : Parser.parse Env.ascii (fieldText "F".toList "007".toList) = .ok (fieldDoc "F".toList (.int 7)) :=
+  C13_number_read Env.ascii _ _ (by decide) (by decide) (by decide) (nfcStable_ascii _ _)
+example : Parser.parse Env.ascii (fieldText "PRICE".toList "-12.50".toList) = .ok (fieldDoc "PRICE".toList (.float "-12.50".toList)) :=
+  C13_number_read_gbnf Env.ascii _ _ (by decide) (by decide) (by decide) (nfcStable_ascii _ _)
+
+/-- the whole model run by the kernel (lexer + parser, no theorem involved) on `F::-12.50`, `F::0`, `F::007`, `F::1.`,
+`F::-0`, `F::1e5` (with `Env.ascii`, whose `floatRepr` is the identity). -/
+example : FlatParse.isOkDoc (Parser.parse Env.ascii "===D===\nF::-12.50\n===END===\n".toList)
+    (fieldDoc "F".toList (.float "-12.50".toList)) = true := by decide +kernel
+example : FlatParse.isOkDoc (Parser.parse Env.ascii "===D===\nF::0\n===END===\n".toList)
+    (fieldDoc "F".toList (.int 0)) = true := by decide +kernel
+example : FlatParse.isOkDoc (Parser.parse Env.ascii "===D===\nF::007\n===END===\n".toList)
+    (fieldDoc "F".toList (.int 7)) = true := by decide +kernel
+example : FlatParse.isOkDoc (Parser.parse Env.ascii "===D===\nF::1.\n===END===\n".toList)
+    (fieldDoc "F".toList (.float "1.".toList)) = true := by decide +kernel
+example : FlatParse.isOkDoc (Parser.parse Env.ascii "===D===\nF::-0\n===END===\n".toList)
+    (fieldDoc "F".toList (.int 0)) = true := by decide +kernel
+example : FlatParse.isOkDoc (Parser.parse Env.ascii "===D===\nF::1e5\n===END===\n".toList)
+    (fieldDoc "F".toList (.float "1e5".toList)) = true := by decide +kernel
+example : fieldText "F".toList "-12.50".toList = "===D===\nF::-12.50\n===END===\n".toList := by decide
+
+/-! ### the excluded regions on witnesses (findings C13N3, C13N4) -/
+
+/-- 4301 ones: derivable from the compiled NUMBER fragment's language, over CPython's digit limit. -/
+def ones4301 : Str := List.replicate 4301 '1'
+
+set_option maxRecDepth 100000 in
+theorem ones4301_gbnf : gbnfNumber ones4301 = true := by decide +kernel
+set_option maxRecDepth 100000 in
+theorem ones4301_not_representable : ¬ Representable Env.ascii ones4301 := by decide +kernel
+set_option maxRecDepth 100000 in
+theorem ones4300_representable : Representable Env.ascii (List.replicate 4300 '1') := by decide +kernel
+
+/-- **C13N3 on a witness**: `F::111…1` (4301 digits) is derivable and the reader refuses it (E005 at line 2, column 4);
+the real code: `LexerError E005 at line 2, column 4: Invalid integer literal: Exceeds the limit (4300 digits)`. -/
+theorem C13N3_witness :
+    gbnfNumber ones4301 = true ∧
+    Parser.parse Env.ascii (fieldText "F".toList ones4301) = .error (.lexer "E005".toList 2 4) :=
+  ⟨ones4301_gbnf,
+   C13_number_refused Env.ascii "F".toList ones4301 (gbnfNumber_pyNumberFull _ ones4301_gbnf) (by decide)
+     ones4301_not_representable (nfcStable_ascii _ _)⟩
+
+/-- `1` followed by 309 zeros and `.0`: derivable from the compiled NUMBER fragment, `float()` of it is `inf` in CPython. -/
+def big310 : Str := '1' :: (List.replicate 309 '0' ++ ".0".toList)
+
+/-- **C13N4 on a witness**: in every environment whose `float()` overflows on that text (CPython's does), the reader refuses
+it; the real code: `LexerError E005 at line 2, column 4: Numeric literal out of range`. -/
+theorem C13N4_witness (env : Env) (hov : env.floatRepr big310 = "inf".toList) (hnfc : NfcStable env "F".toList big310) :
+    gbnfNumber big310 = true ∧
+    Parser.parse env (fieldText "F".toList big310) = .error (.lexer "E005".toList 2 4) := by
+  have hg : gbnfNumber big310 = true := by decide +kernel
+  refine ⟨hg, C13_number_refused env "F".toList big310 (gbnfNumber_pyNumberFull _ hg) (by decide) ?_ hnfc⟩
+  have hi : isIntLexeme big310 = false := by decide +kernel
+  unfold Representable
+  rw [hi]
+  simp only [Bool.false_eq_true, if_false, hov]
+  exact fun h => h.1 rfl
+
+/-- an environment of that kind (a stand-in for CPython's `float`: overflow beyond 309 characters). -/
+def envOverflow : Env := { Env.ascii with floatRepr := fun t => if t.length > 309 then "inf".toList else t }
+
+example : Parser.parse envOverflow (fieldText "F".toList big310) = .error (.lexer "E005".toList 2 4) :=
+  (C13N4_witness envOverflow (by decide +kernel) (fun _ _ => rfl)).2
+
+/-! ### necessity: the model at excluded points (the real code returns the same, see the header) -/
+
+/-- the value read for `F::<text>` by the whole model (`none`: an error or not exactly one assignment). -/
+def readValue (text : String) : Option Value :=
+  match Parser.parse Env.ascii (fieldText "F".toList text.toList) with
+  | .ok d => (match d.sections with | [.assign _ v _ _ _ _] => some v | _ => none)
+  | .error _ => none
+
+def isStr (v : Option Value) (s : String) : Bool :=
+  match v with | some (.str t) => t == s.toList | _ => false
+
+/-- member texts outside `BareWord` that are MISREAD (finding C13N2's class) … -/
+example : isStr (readValue "9lives") "9 lives" = true ∧ isStr (readValue "a,b") "a" = true ∧
+    isStr (readValue "#tag") "§tag" = true ∧ isStr (readValue "a&b") "a∧b" = true ∧ isStr (readValue "vs") "⇌" = true ∧
+    isStr (readValue "null.x") "null .x" = true ∧ isStr (readValue "\"true\"") "true" = true := by decide +kernel
+/-- … refused … -/
+example : (match Parser.parse Env.ascii (fieldText "F".toList "true-x".toList) with
+      | .ok _ => none | .error e => some e) = some (.lexer "E005".toList 2 8) ∧
+    (match Parser.parse Env.ascii (fieldText "F".toList "a-".toList) with
+      | .ok _ => none | .error e => some e) = some (.lexer "E005".toList 2 5) := by decide +kernel
+/-- … or read as the same string by a route the theorem does not cover. -/
+example : isStr (readValue "hello world") "hello world" = true ∧ isStr (readValue "a/b") "a/b" = true := by decide +kernel
+/-- `KeyOK` is necessary: `META::1` is rejected by the parser, `true::1` yields no section. -/
+example : (match Parser.parse Env.ascii (fieldText "META".toList "1".toList) with
+      | .ok _ => none | .error e => some e) = some (.parser "E001".toList 2 5) ∧
+    (match Parser.parse Env.ascii (fieldText "true".toList "1".toList) with
+      | .ok d => some d.sections.length | .error _ => none) = some 0 := by decide +kernel
 
 end Octave.C13
